@@ -100,7 +100,7 @@ for it in range(max(20, N // 10)):
     for n_, w_ in zip(names, w): s.rebalance(float(w_), n_, update=False)
     s.update(idx[0])
     tol = float(rs.choice([0.05, 0.2, 0.5]))
-    tgt = {n_: float(s[n_].weight * (1 + rs.choice([-1, 1]) * rs.uniform(0, min(2 * tol, 0.9)))) for n_ in names if rs.rand() < 0.8}
+    tgt = {n_: float(s[n_].weight * (1 + rs.choice([-1, 1]) * rs.uniform(0, min(2 * tol, 0.9)))) for n_ in names if rs.rand() < 0.8 and abs(s[n_].weight) > 1e-9}   # a zero target has no relative deviation (precondition of the contract)
     s.temp["weights"] = dict(tgt)
     got = RunIfOutOfBounds(tol)(s); evals += 1
     want = any(abs((s[n_].weight - t) / t) > tol for n_, t in tgt.items())
